@@ -613,13 +613,13 @@ func suiteCodec(args []string) {
 			per = 3
 		}
 		for i := 0; i < per; i++ {
-			g := &gen{r: r, wf: i%3 != 2, big: i%50 == 7}
+			g := &gen{r: r, wf: i%3 != 2, big: i%50 == 7, arenaMode: i%7 == 3}
 			v := g.genTop(tn)
 			txt := showVal(reflect.ValueOf(v))
 			obs, out := implEncode(v)
 			// C02: Encode reads its input only - the value prints the same afterwards and the spare capacity behind every
 			// byte string (a sentinel put there by the generator) is untouched
-			if after := showVal(reflect.ValueOf(v)); after != txt || spareTouched(reflect.ValueOf(v), 0) {
+			if after := showVal(reflect.ValueOf(v)); after != txt || (!g.arenaMode && spareTouched(reflect.ValueOf(v), 0)) {
 				viol("encode-mutates-input", map[string]interface{}{"what": "Encode modified the value it was given (a field changed, or bytes were written into the spare capacity behind a byte string - memory the caller may be using for something else)",
 					"value_before": firstN(txt, 1500), "value_after": firstN(after, 1500)})
 			}
@@ -697,6 +697,21 @@ func suiteCodec(args []string) {
 		if out != nil {
 			runRoundTrip(cw, rep, tn, v, txt, out, viol)
 			rep.Distribution[fmt.Sprintf("rt-many:%dKiB", len(out)/1024)]++
+		}
+	}
+	// group 1b': single values longer than 64 KiB whose length is not a multiple of 8 (the value is what the bytes denote: no
+	// padding left on it), text and bytes
+	for _, l := range []int{65537, 70001, 131075} {
+		req := &kmip.Request{Header: kmip.RequestHeader{Version: kmip.ProtocolVersion{Major: 1, Minor: 4}, BatchCount: 1, ClientCorrelationValue: strings.Repeat("c", l)},
+			BatchItems: []kmip.RequestBatchItem{{Operation: kmip.OPERATION_GET, UniqueID: bytes.Repeat([]byte{0x5a}, l+2), RequestPayload: kmip.GetRequest{UniqueIdentifier: "k"}}}}
+		txt := showVal(reflect.ValueOf(req))
+		obs, out := implEncode(req)
+		cw.add("enc-wf", "enc "+txt, obs)
+		if out != nil {
+			runRoundTrip(cw, rep, "Request", req, txt, out, viol)
+			res := implDecode("Request", out)
+			cw.add("dec-valid", "dec Request "+hexBytes(out), decObs(res, len(out)))
+			rep.Distribution["rt-long-value"]++
 		}
 	}
 	// group 1c: user-defined structure types against the models run on their declarations (UserTypes.v)
